@@ -1,4 +1,4 @@
-import StorageModel.C03.Reject
+import StorageModel.C03.LayeredReject
 /-
   C03 — Unique and set indexes mirror entity state; uniqueness is enforced.
 
@@ -10,127 +10,157 @@ import StorageModel.C03.Reject
   value in a non-nullable unique index, fails with the corresponding error and changes nothing."
 
   Model: StorageModel/C03/Model.lean (boltz Create / Update / DeleteById with the
-  capture-old / apply-new IndexingContext protocol, one explicit map per index bucket).
-  Spec:  StorageModel/C03/Spec.lean (entity table only, indexes derived).
-  All theorems quantify over every state / operation / finite history of transactions.
+  capture-old / apply-new IndexingContext protocol, one explicit map per index bucket) and
+  StorageModel/C03/Layered.lean, which puts a plain CHILD store on top of the indexed store
+  (creates through the child store — also over an existing plain parent entity —, updates through
+  either store, deletes through either store with the parent's `ProcessBeforeDelete` running once
+  per store that holds the entity) and a SCHEMA giving every field a symbol name, a stored key and
+  a caller-side (FieldChecker) name; patches name fields by the caller-side name.
+  Spec:  StorageModel/C03/LayeredSpec.lean over StorageModel/C03/Spec.lean (entity table only,
+  indexes derived).
+  All theorems quantify over every schema / state / operation / finite history of transactions.
 -/
 namespace StorageModel.Properties.C03
-open StorageModel StorageModel.C03
+open StorageModel StorageModel.C03.Layered
+open StorageModel.C03 (Map Id Ent Vals Err Line bAlias bRoles)
 
 /-- the invariant holds for the freshly initialised database -/
 theorem inv_init : Inv State.empty := inv_empty
 
-/-- every operation kind, accepted or rejected, run in its own transaction, preserves it -/
-theorem inv_step {s : State} (op : Op) (h : Inv s) : Inv (step s op).1 := inv_txStep [op] h
+/-- every operation kind through either store, accepted or rejected, run in its own transaction,
+    preserves it -/
+theorem inv_step (sch : Schema) {s : State} (op : Op) (h : Inv s) : Inv (step sch s op).1 := inv_txStep [op] h
 
 /-- so does every transaction of several operations (committed, or rolled back at the first error) -/
-theorem inv_tx {s : State} (ops : List Op) (h : Inv s) : Inv (txStep s ops).1 := inv_txStep ops h
+theorem inv_tx (sch : Schema) {s : State} (ops : List Op) (h : Inv s) : Inv (txStep sch s ops).1 := inv_txStep ops h
 
 /-- **all finite histories**: the invariant holds after any sequence of transactions -/
-theorem inv_reachable (txs : List (List Op)) : Inv (run txs) := by
+theorem inv_reachable (sch : Schema) (txs : List (List Op)) : Inv (run sch txs) := by
   unfold run
-  suffices ∀ s, C03.Inv s → C03.Inv (txs.foldl (fun s ops => (txStep s ops).1) s) from this _ inv_init
+  suffices ∀ s, C03.Layered.Inv s → C03.Layered.Inv (txs.foldl (fun s ops => (txStep sch s ops).1) s) from this _ inv_init
   induction txs with
   | nil => intro s h; exact h
-  | cons ops rest ih => intro s h; exact ih _ (inv_tx ops h)
+  | cons ops rest ih => intro s h; exact ih _ (inv_tx sch ops h)
 
 /-- unique index = image of the entity table, in every reachable state (non-nullable `name`) -/
-theorem unique_index_exact (txs : List (List Op)) (v : Bytes) (id : Id) :
-    (run txs).uName.lookup v = some id ↔ (v ≠ [] ∧ ∃ e, (run txs).ents.lookup id = some e ∧ e.name = v) :=
-  (inv_reachable txs).uName v id
+theorem unique_index_exact (sch : Schema) (txs : List (List Op)) (v : Bytes) (id : Id) :
+    (run sch txs).base.uName.lookup v = some id ↔
+      (v ≠ [] ∧ ∃ e, (run sch txs).base.ents.lookup id = some e ∧ e.name = v) :=
+  (inv_reachable sch txs).base.uName v id
 
 /-- the same for the nullable index on `alias` (nil and empty are not indexed) -/
-theorem nullable_unique_index_exact (txs : List (List Op)) (v : Bytes) (id : Id) :
-    (run txs).uAlias.lookup v = some id ↔
-      (v ≠ [] ∧ ∃ e, (run txs).ents.lookup id = some e ∧ e.alias.getD [] = v) :=
-  (inv_reachable txs).uAlias v id
+theorem nullable_unique_index_exact (sch : Schema) (txs : List (List Op)) (v : Bytes) (id : Id) :
+    (run sch txs).base.uAlias.lookup v = some id ↔
+      (v ≠ [] ∧ ∃ e, (run sch txs).base.ents.lookup id = some e ∧ e.alias.getD [] = v) :=
+  (inv_reachable sch txs).base.uAlias v id
 
 /-- set index = exactly the entities whose set field contains the value, in every reachable state -/
-theorem set_index_exact (txs : List (List Op)) (v : Bytes) (id : Id) :
-    id ∈ ((run txs).sRoles.lookup v).getD [] ↔ ∃ e, (run txs).ents.lookup id = some e ∧ v ∈ e.roles :=
-  (inv_reachable txs).sRoles v id
+theorem set_index_exact (sch : Schema) (txs : List (List Op)) (v : Bytes) (id : Id) :
+    id ∈ ((run sch txs).base.sRoles.lookup v).getD [] ↔
+      ∃ e, (run sch txs).base.ents.lookup id = some e ∧ v ∈ e.roles :=
+  (inv_reachable sch txs).base.sRoles v id
 
 /-- no empty index keys are left behind -/
-theorem no_empty_keys (txs : List (List Op)) (v : Bytes) (ids : List Id)
-    (h : (run txs).sRoles.lookup v = some ids) : ids ≠ [] :=
-  (inv_reachable txs).noEmptyKeys v ids h
+theorem no_empty_keys (sch : Schema) (txs : List (List Op)) (v : Bytes) (ids : List Id)
+    (h : (run sch txs).base.sRoles.lookup v = some ids) : ids ≠ [] :=
+  (inv_reachable sch txs).base.noEmptyKeys v ids h
+
+/-- child data exists only inside an existing entity bucket -/
+theorem child_data_inside_entity (sch : Schema) (txs : List (List Op)) (id : Id) (t : Bytes)
+    (h : (run sch txs).ext.lookup id = some t) : ((run sch txs).base.ents.lookup id).isSome = true :=
+  (inv_reachable sch txs).extIn id t h
 
 /-- "exactly the one entity": an entity is found under one value only … -/
 theorem uniq_injective {s : State} (hi : Inv s) {v v' : Bytes} {a : Id}
-    (h : s.uName.lookup v = some a) (h' : s.uName.lookup v' = some a) : v = v' := by
-  obtain ⟨_, e, he, rfl⟩ := (hi.uName v a).1 h
-  obtain ⟨_, e', he', rfl⟩ := (hi.uName v' a).1 h'
+    (h : s.base.uName.lookup v = some a) (h' : s.base.uName.lookup v' = some a) : v = v' := by
+  obtain ⟨_, e, he, rfl⟩ := (hi.base.uName v a).1 h
+  obtain ⟨_, e', he', rfl⟩ := (hi.base.uName v' a).1 h'
   rw [he] at he'; cases he'; rfl
 
 /-- … and two entities never hold the same (non-empty) unique value -/
 theorem unique_holder {s : State} (hi : Inv s) {a b : Id} {e e' : Ent}
-    (ha : s.ents.lookup a = some e) (hb : s.ents.lookup b = some e') (h : e.name = e'.name) : a = b := by
-  have hne := hi.namesNonEmpty a e ha
-  have h1 := (hi.uName e.name a).2 ⟨hne, e, ha, rfl⟩
-  have h2 := (hi.uName e.name b).2 ⟨hne, e', hb, h.symm⟩
+    (ha : s.base.ents.lookup a = some e) (hb : s.base.ents.lookup b = some e') (h : e.name = e'.name) : a = b := by
+  have hne := hi.base.namesNonEmpty a e ha
+  have h1 := (hi.base.uName e.name a).2 ⟨hne, e, ha, rfl⟩
+  have h2 := (hi.base.uName e.name b).2 ⟨hne, e', hb, h.symm⟩
   rw [h1] at h2; cases h2; rfl
 
-/-- a write that would give two entities the same unique value fails with the duplicate error
-    and changes nothing -/
-theorem dup_rejected {s : State} {op : Op} (hi : Inv s) (hw : WouldDuplicate s op) :
-    step s op = (s, .err .dup) := by
+/-- a write — through either store — that would give two entities the same unique value fails with
+    the duplicate error and changes nothing -/
+theorem dup_rejected {sch : Schema} {s : State} {op : Op} (hi : Inv s) (hw : WouldDuplicate sch s op) :
+    step sch s op = (s, .err .dup) := by
   simp [step, txStep, applyOps, stepRaw_dup hi hw]
 
 /-- an empty value for the non-nullable unique index fails with the null-not-allowed error and
     changes nothing -/
-theorem empty_rejected {s : State} {op : Op} (hi : Inv s) (hw : WouldBeEmpty s op) :
-    step s op = (s, .err .nullNotAllowed) := by
+theorem empty_rejected {sch : Schema} {s : State} {op : Op} (hi : Inv s) (hw : WouldBeEmpty sch s op) :
+    step sch s op = (s, .err .nullNotAllowed) := by
   simp [step, txStep, applyOps, stepRaw_empty hi hw]
 
 /-- a transaction that ends in an error leaves the state unchanged (this is the modelled bbolt
     rollback: true by construction of `txStep`, listed so that the assumption is visible) -/
-theorem error_changes_nothing (s : State) (ops : List Op) (h : (txStep s ops).2 ≠ .ok) : (txStep s ops).1 = s := by
+theorem error_changes_nothing (sch : Schema) (s : State) (ops : List Op) (h : (txStep sch s ops).2 ≠ .ok) :
+    (txStep sch s ops).1 = s := by
   unfold txStep at h ⊢
   split
   · next s' hs => rw [hs] at h; exact absurd rfl h
   · rfl
 
-/-- **refinement**: on a consistent state the engine model and the spec (entity table only;
-    refuse exactly the writes that would break a constraint against the other entities) agree on
-    every operation — both succeed with the same entity table, or both fail and the engine's error
-    is among those the spec allows -/
-theorem step_refines_spec {s : State} (hi : Inv s) (op : Op) :
-    match stepRaw s op, Spec.step (abs s) op with
+/-- **refinement**: on a consistent state the engine model and the spec (entity table and child
+    data only; refuse exactly the writes that would break a constraint against the other entities)
+    agree on every operation through either store — both succeed with the same entity table, or
+    both fail and the engine's error is among those the spec allows -/
+theorem step_refines_spec {sch : Schema} {s : State} (hi : Inv s) (op : Op) :
+    match stepRaw sch s op, Spec.step sch (abs s) op with
     | .ok s', .ok t' => abs s' = t'
     | .error e, .error es => e ∈ es
     | _, _ => False :=
   stepRaw_refines hi op
 
 /-- the bucket dump of a consistent state is the dump derived from the entity table alone -/
-theorem render_eq_spec {s : State} (hi : Inv s) (l : Line) : l ∈ Render s ↔ l ∈ Spec.render (abs s) :=
+theorem render_eq_spec {sch : Schema} {s : State} (hi : Inv s) (l : Line) :
+    l ∈ Render sch s ↔ l ∈ Spec.render sch (abs s) :=
   render_eq_spec_lines hi l
 
 /-- the nil dereference in `setIndex.ProcessAfterUpdate/ProcessBeforeDelete` (an empty old value)
     is unreachable from consistent states -/
-theorem no_panic {s : State} (hi : Inv s) (op : Op) : stepRaw s op ≠ .error .panic := stepRaw_no_panic hi
+theorem no_panic {sch : Schema} {s : State} (hi : Inv s) (op : Op) : stepRaw sch s op ≠ .error .panic :=
+  stepRaw_no_panic hi
 
 /-! ### non-vacuity -/
 
 def exA : Vals := ⟨[120], some [121], [[114], [115]]⟩
 def exB : Vals := ⟨[121], none, [[114]]⟩
-/-- a reachable state with two entities sharing a role -/
-def exState : State := run [[.create [97] exA, .create [98] exB]]
+/-- a schema in which symbol name, stored key and caller-side name of `name` all differ -/
+def exSch : Schema := ⟨⟨[110], [107], [100]⟩, ⟨bAlias, bAlias, [113]⟩, ⟨bRoles, bRoles, [97, 116]⟩, bTag, bTag⟩
+/-- a reachable state: a (with child data) and b (plain) share role r -/
+def exState : State := run exSch [[.create .child [97] exA [116], .create .parent [98] exB []]]
 
-example : exState.uName.lookup [120] = some [97] ∧ exState.uName.lookup [121] = some [98] ∧
-    exState.sRoles.lookup [114] = some [[97], [98]] := by decide
-example : Inv exState := inv_reachable _
-/-- `WouldDuplicate` is satisfiable: b takes a's name -/
-example : WouldDuplicate exState (.update [98] ⟨[120], none, []⟩ (some ⟨true, false, false⟩)) :=
+example : exState.base.uName.lookup [120] = some [97] ∧ exState.base.uName.lookup [121] = some [98] ∧
+    exState.base.sRoles.lookup [114] = some [[97], [98]] ∧ exState.ext.lookup [97] = some [116] := by decide
+example : Inv exState := inv_reachable _ _
+/-- `WouldDuplicate` is satisfiable: b takes a's name, the patch naming the field by its caller-side name -/
+example : WouldDuplicate exSch exState (.update .parent [98] ⟨[120], none, []⟩ [] (some [[100]])) :=
   ⟨[98], ⟨[120], none, [[114]]⟩, by decide, by decide, Or.inl ⟨[97], ⟨[120], some [121], [[114], [115]]⟩, by decide, by decide, rfl⟩⟩
-example : (step exState (.update [98] ⟨[120], none, []⟩ (some ⟨true, false, false⟩))).2 = .err .dup := by decide
-/-- `WouldBeEmpty` is satisfiable -/
-example : WouldBeEmpty exState (.create [99] ⟨[], none, []⟩) := ⟨[99], ⟨[], none, []⟩, by decide, rfl⟩
-example : (step exState (.create [99] ⟨[], none, []⟩)).2 = .err .nullNotAllowed := by decide
-/-- hand-over inside one transaction: a releases x, b takes it -/
-example : ((txStep exState [.update [97] ⟨[122], none, []⟩ (some ⟨true, false, false⟩),
-                            .update [98] ⟨[120], none, []⟩ (some ⟨true, false, false⟩)]).1.uName.lookup [120]) = some [98] := by decide
+example : (step exSch exState (.update .parent [98] ⟨[120], none, []⟩ [] (some [[100]]))).2 = .err .dup := by decide
+/-- … whereas the symbol name or the stored key in the checker selects nothing -/
+example : (step exSch exState (.update .parent [98] ⟨[120], none, []⟩ [] (some [[110], [107]]))).1.base.ents.lookup [98]
+    = some ⟨[121], none, [[114]]⟩ := by decide
+/-- `WouldBeEmpty` is satisfiable, also for a child-store create over the existing plain parent b -/
+example : WouldBeEmpty exSch exState (.create .child [98] ⟨[], none, []⟩ [116]) := ⟨[98], ⟨[], none, []⟩, by decide, rfl⟩
+example : (step exSch exState (.create .child [98] ⟨[], none, []⟩ [116])).2 = .err .nullNotAllowed := by decide
+/-- hand-over inside one transaction: a releases x (update through the parent store, delegated to
+    the child store), b takes it -/
+example : ((txStep exSch exState [.update .parent [97] ⟨[122], none, []⟩ [] (some [[100]]),
+                                  .update .parent [98] ⟨[120], none, []⟩ [] (some [[100]])]).1.base.uName.lookup [120]) = some [98] := by decide
 /-- the last holder of a role leaves: the index key disappears -/
-example : (step exState (.update [97] ⟨[120], none, [[114]]⟩ (some ⟨false, false, true⟩))).1.sRoles.lookup [115] = none := by decide
+example : (step exSch exState (.update .child [97] ⟨[120], none, [[114]]⟩ [116] (some [[97, 116]]))).1.base.sRoles.lookup [115] = none := by decide
+/-- deleting a (child data: two passes of the parent's `ProcessBeforeDelete`) leaves b's entry under the shared role -/
+example : (step exSch exState (.delete .child [97])).1.base.sRoles.lookup [114] = some [[98]] ∧
+    (step exSch exState (.delete .child [97])).1.ext.lookup [97] = none := by decide
+/-- a child-store create over the plain parent b replaces b's index entries -/
+example : (step exSch exState (.create .child [98] ⟨[122], none, [[115]]⟩ [116])).1.base.uName.lookup [121] = none ∧
+    (step exSch exState (.create .child [98] ⟨[122], none, [[115]]⟩ [116])).1.base.sRoles.lookup [114] = some [[97]] := by decide
 
 end StorageModel.Properties.C03
 
